@@ -418,7 +418,8 @@ PROPS["C12"] = {
     "evaluations": ["histories"],
     "rule": RULE_WORKER + "; payloads carry their stream number",
     "require": {"any": {"restarts.clear": 100, "restarts.keep": 100, "directed.restart.run-paused-before-sort": 3, "directed.restart.run-finished-unobserved": 3,
-                         "directed.restart.twice-without-tick": 3, "directed.restart-with-old-pushers": 5, "directed.huge-snapshot-restarts": 1}},
+                         "directed.restart.twice-without-tick": 3, "directed.restart-with-old-pushers": 5, "directed.huge-snapshot-restarts": 1,
+                         "directed.restart.same-counts-other-positions": 3}},
     "assumptions": ["an empty snapshot (no matches, item_count 0) carries no stream identity"],
 }
 PROPS["C19"] = {
@@ -454,7 +455,8 @@ PROPS["C13"] = {
              "inside notify on a thread that is inside push/extend the items of that call are visible; same-count runs: a run over a new stream (or after a late publication) whose result has exactly as many matches as the previous one must still notify. distinct_nontrivial = schedules / event loops run"),
     "require": {"any": {"c13.schedules-judged": 200, "c13.ordering[C R L U A]": 10, "c13.ordering[C L R A U]": 10, "c13.ordering[R C L A U]": 10, "c13.ordering[C L A return R U]": 10, "c13.ordering[C R L A (tick goes on, worker held) U]": 10, "c13.ordering[R C L A (tick goes on, worker held) U]": 10,
                          "c13.event-loops": 20, "c13.injector-notifies-checked": 500, "c13.same-count.variant0.running=true": 3,
-                         "c13.update-config.run-held=true.running=true": 3, "c13.same-count.variant3.running=true": 3, "c13.ticks-issued-inside-the-notify-callback": 10, "c13.ticks-on-one-matcher-while-another-ran": 10, "c13.idle-runs-ending-inside-a-tick": 10}},
+                         "c13.update-config.run-held=true.running=true": 3, "c13.same-count.variant3.running=true": 3, "c13.ticks-issued-inside-the-notify-callback": 10, "c13.ticks-on-one-matcher-while-another-ran": 10, "c13.idle-runs-ending-inside-a-tick": 10,
+                         "c13.schedules-on-an-instance-with-65536+-earlier-runs": 2}},
     "assumptions": ["an unbounded 'eventually' is not decidable on a finite run: the verdict is taken when no run is pending any more (final, not a timeout)"],
 }
 
